@@ -6,3 +6,5 @@ class Plugin(HistPlugin):
     id = 'C09'
     extra_import = 'HistProps HistPropCheck'
     check_fn = 'c09_check'
+    FINDING_BITS = 0
+    UNDECIDED_BITS = 0
